@@ -73,7 +73,7 @@ theorem idcStarFuel_fragX_path (hord : PermOrder ordf) {O : Event} {x : Name} (h
     (no' : Event)
     (hex : ∀ cf nev, makeCounterfactualGraph ordf G (O ++ condOf x) = .ok (cf, some nev) →
       (∃ c', firstExchangeable cf O.keys (condOf x).keys = .ok (some c')) ∧
-      exchangeOutcomes cf O (Var.plain x) (unstar x) = .ok no')
+      exchangeStep cf O (Var.plain x) (unstar x) = .ok (some no'))
     (hnd : (no'.map (·.1)).Nodup)
     (hkeep : ∀ cf2 o, makeCounterfactualGraph ordf G no' = .ok (cf2, o) →
       ∃ nev2, o = some nev2 ∧ ∀ p ∈ no', nev2.has p.1 = true)
@@ -329,7 +329,7 @@ theorem idcStarFuel_sound_fragX (M : Model) (ν : BaseValues) (dom : Name → Na
     (hord : PermOrder ordf) (hdo : PermDistrict dordf) {O : Event} {x : Name} (hfr : FragC G O (condOf x)) (hOne : O ≠ [])
     (hex : ∀ cf nev, makeCounterfactualGraph ordf G (O ++ condOf x) = .ok (cf, some nev) →
       (∃ c', firstExchangeable cf O.keys (condOf x).keys = .ok (some c')) ∧
-      exchangeOutcomes cf O (Var.plain x) (unstar x) = .ok (exOut O x))
+      exchangeStep cf O (Var.plain x) (unstar x) = .ok (some (exOut O x)))
     (hkeep : ∀ cf2 nev2, makeCounterfactualGraph ordf G (exOut O x) = .ok (cf2, some nev2) →
       ∀ p ∈ exOut O x, nev2.has p.1 = true)
     (fuel : Nat) (e : Expr) (h : idcStarFuel ordf dordf kordf G (fuel + 2) O (condOf x) = .ok e)
@@ -382,29 +382,21 @@ theorem mapM_ok_self {α : Type} (f : α → Except Err α) : ∀ (l : List α),
 
 /-- when no outcome descends from the condition the exchange leaves the outcomes as they are -/
 theorem exchangeOutcomes_none (cf : MG Var) (O : Event) (c : Var) (val : Iv) (hnd : (O.map (·.1)).Nodup)
-    (h : exchangeNoneB cf O c = true) : exchangeOutcomes cf O c val = .ok O := by
+    (h : exchangeNoneB cf O c = true) : exchangeStep cf O c val = .ok (some O) := by
   unfold exchangeNoneB at h
   rw [List.all_eq_true] at h
-  unfold exchangeOutcomes
-  have hm : O.mapM (fun (p : Var × Iv) => (do
-      let anc ← cf.ancestorsInclusive [p.1]
-      if elem' c anc then
-        let k ← interveneWith p.1 val
-        pure (k, p.2)
-      else pure p : Except Err (Var × Iv))) = .ok O := by
+  have hm : O.mapM (exchangeKey cf c val) = .ok O := by
     apply mapM_ok_self
     intro p hp
     have := h p hp
+    unfold exchangeKey
     cases ha : cf.ancestorsInclusive [p.1] with
     | error e => rw [ha] at this; cases this
     | ok anc =>
       rw [ha] at this
       simp only [Bool.not_eq_true'] at this
       simp only [bind, Except.bind, this, Bool.false_eq_true, if_false, pure, Except.pure]
-  simp only [bind, Except.bind, pure, Except.pure] at hm ⊢
-  rw [hm]
-  simp only
-  rw [Event.ofList_eq_of_nodup O hnd]
+  exact exchangeStep_of_nodup cf O c val O hm hnd
 
 /-- the outcomes alone are in the (factual) fragment of ID* -/
 theorem FragC.fragO {G : MG Name} {O C : Event} (h : FragC G O C) : Frag G [] O := by
@@ -533,20 +525,15 @@ theorem mapM_ok_map {α β : Type} (f : α → Except Err β) (g : α → β) : 
 /-- when every outcome descends from the condition the exchange re-subscripts all of them -/
 theorem exchangeOutcomes_all {O C : Event} {x : Name} (hfr : FragC G O C) (cf : MG Var)
     (h : exchangeAllB cf O (Var.plain x) = true) :
-    exchangeOutcomes cf O (Var.plain x) (unstar x) = .ok (exOut O x) := by
+    exchangeStep cf O (Var.plain x) (unstar x) = .ok (some (exOut O x)) := by
   unfold exchangeAllB at h
   rw [List.all_eq_true] at h
-  unfold exchangeOutcomes
-  have hm : O.mapM (fun (p : Var × Iv) => (do
-      let anc ← cf.ancestorsInclusive [p.1]
-      if elem' (Var.plain x) anc then
-        let k ← interveneWith p.1 (unstar x)
-        pure (k, p.2)
-      else pure p : Except Err (Var × Iv))) = .ok (O.map fun p => (atWorld p.1.name [unstar x], p.2)) := by
+  have hm : O.mapM (exchangeKey cf (Var.plain x) (unstar x)) = .ok (O.map fun p => (atWorld p.1.name [unstar x], p.2)) := by
     apply mapM_ok_map
     intro p hp
     have := h p hp
     have hpl := hfr.plain p (by simp [hp])
+    unfold exchangeKey
     cases ha : cf.ancestorsInclusive [p.1] with
     | error e => rw [ha] at this; cases this
     | ok anc =>
@@ -556,11 +543,9 @@ theorem exchangeOutcomes_all {O C : Event} {x : Name} (hfr : FragC G O C) (cf : 
         rw [hpl]
         rfl
       simp only [bind, Except.bind, this, if_true, hi, pure, Except.pure]
-  simp only [bind, Except.bind, pure, Except.pure] at hm ⊢
-  rw [hm]
-  simp only
-  have : (O.map fun p => (atWorld p.1.name [unstar x], p.2)) = exOut O x := rfl
-  rw [this, Event.ofList_eq_of_nodup _ (exOut_keys_nodup G hfr)]
+  have hex : (O.map fun p => (atWorld p.1.name [unstar x], p.2)) = exOut O x := rfl
+  rw [hex] at hm
+  exact exchangeStep_of_nodup cf O _ _ _ hm (exOut_keys_nodup G hfr)
 
 /-- `exchangeAllB` says that every outcome descends from `X` in `G` -/
 theorem desc_of_exchangeAll (hord : PermOrder ordf) (hG : G.WF) (hdl : ∀ e ∈ G.di, e.1 ≠ e.2) (hbl : ∀ e ∈ G.bi, e.1 ≠ e.2)
